@@ -367,7 +367,8 @@ func (p *Prop[C]) Rapid(t *testing.T, gen func(*rapid.T) C) {
 }
 
 // Concurrent drives the check with BATCHES of rapid-generated cases that are evaluated at the same
-// time, one goroutine per case, released together, reps times per batch. Every check is a pure
+// time, one goroutine per case, released together, each case reps times in a row (a batch is
+// batch/2 distinct cases, each present twice). Every check is a pure
 // function of its case and works on objects of its own, so logically the evaluations are
 // independent: a case that holds on its own and fails here has met state shared between
 // separate objects of the code under test (package-level scratch space, a pool whose buffers
@@ -384,11 +385,14 @@ func (p *Prop[C]) Concurrent(t *testing.T, gen func(*rapid.T) C, batch, reps int
 		if failed {
 			return
 		}
-		cases := make([]C, batch)
-		for i := range cases {
-			cases[i] = gen(rt)
+		// batch/2 distinct cases, each of them twice (a deep copy through JSON, so that the two
+		// evaluations share nothing inside the harness): caches and memo tables keyed by the input
+		// are hit by the twin while the other cases evict and refill them
+		distinct := make([]C, (batch+1)/2)
+		for i := range distinct {
+			distinct[i] = gen(rt)
 		}
-		for _, c := range cases {
+		for _, c := range distinct {
 			r := p.Eval(c)
 			if r.V != nil {
 				S.record(p.Sub, c, r)
@@ -396,37 +400,48 @@ func (p *Prop[C]) Concurrent(t *testing.T, gen func(*rapid.T) C, batch, reps int
 				rt.Fatalf("VERIF-VIOLATION property=%s sub=%s kind=%s replay=%s\n%s", p.ID, p.Sub, r.V.Kind, path, r.V.Msg)
 			}
 		}
-		for rep := 0; rep < reps && !failed; rep++ {
-			results := make([]*R, batch)
-			start := make(chan struct{})
-			var wg sync.WaitGroup
-			for i := range cases {
-				wg.Add(1)
-				go func(i int) {
-					defer wg.Done()
-					<-start
+		cases := make([]C, 0, 2*len(distinct))
+		for _, c := range distinct {
+			cases = append(cases, c)
+			var twin C
+			if b, err := json.Marshal(c); err == nil && json.Unmarshal(b, &twin) == nil {
+				cases = append(cases, twin)
+			}
+		}
+		results := make([]*R, len(cases))
+		start := make(chan struct{})
+		var wg sync.WaitGroup
+		for i := range cases {
+			wg.Add(1)
+			go func(i int) {
+				defer wg.Done()
+				<-start
+				for rep := 0; rep < reps; rep++ { // no barrier between the repetitions: the overlaps drift
 					results[i] = cp.eval(cases[i], false)
-				}(i)
+					if results[i].V != nil {
+						return
+					}
+				}
+			}(i)
+		}
+		close(start)
+		wg.Wait()
+		// hooks that look at state shared by all cases (guarded input slices) run once the
+		// batch has come to rest
+		for _, f := range PostEval {
+			if kind, msg := f(); kind != "" && results[0].V == nil {
+				results[0].V = &Violation{Kind: kind, Msg: msg + " (some case of the batch)"}
 			}
-			close(start)
-			wg.Wait()
-			// hooks that look at state shared by all cases (guarded input slices) run once the
-			// batch has come to rest
-			for _, f := range PostEval {
-				if kind, msg := f(); kind != "" && results[0].V == nil {
-					results[0].V = &Violation{Kind: kind, Msg: msg + " (some case of the batch)"}
-				}
+		}
+		for i, r := range results {
+			if r.V != nil {
+				r.V = &Violation{Kind: "concurrent:" + r.V.Kind, Msg: fmt.Sprintf("the case holds when evaluated on its own and failed while %d other cases (one of them a copy of this one) were evaluated at the same time on other goroutines (separate objects, so state is shared inside the code under test; schedule-dependent, may not reproduce from the saved case alone)\n%s", len(cases)-1, r.V.Msg)}
 			}
-			for i, r := range results {
-				if r.V != nil {
-					r.V = &Violation{Kind: "concurrent:" + r.V.Kind, Msg: fmt.Sprintf("the case holds when evaluated on its own and failed while %d other cases were evaluated at the same time on other goroutines (separate objects, so state is shared inside the code under test; schedule-dependent, may not reproduce from the saved case alone)\n%s", batch-1, r.V.Msg)}
-				}
-				S.record(cp.Sub, cases[i], r)
-				if r.V != nil && !failed {
-					failed = true
-					path := cp.save(cases[i], r.V)
-					t.Errorf("VERIF-VIOLATION property=%s sub=%s kind=%s replay=%s\n%s", cp.ID, cp.Sub, r.V.Kind, path, r.V.Msg)
-				}
+			S.record(cp.Sub, cases[i], r)
+			if r.V != nil && !failed {
+				failed = true
+				path := cp.save(cases[i], r.V)
+				t.Errorf("VERIF-VIOLATION property=%s sub=%s kind=%s replay=%s\n%s", cp.ID, cp.Sub, r.V.Kind, path, r.V.Msg)
 			}
 		}
 	})
